@@ -198,9 +198,27 @@ def check_exact(ck, rule: str, fi: FuncInfo, sink: ast.AST, sources: Iterable[st
 # ---------------------------------------------------------------------------
 
 
-def _const_len(e: ast.AST) -> Optional[int]:
+def _const_len(e: ast.AST, fi: Optional[FuncInfo] = None) -> Optional[int]:
+    """Length of a bytes/str literal, or of a module-level NAME bound to one."""
     if isinstance(e, ast.Constant) and isinstance(e.value, (bytes, str)):
         return len(e.value)
+    if isinstance(e, ast.Name) and fi is not None:
+        v = fi.module.assigns.get(e.id)
+        if isinstance(v, ast.Constant) and isinstance(v.value, (bytes, str)) and e.id not in q.local_names(fi.node):
+            return len(v.value)
+    return None
+
+
+def _int_of(e: ast.AST, fi: FuncInfo) -> Optional[int]:
+    """Value of an int literal or of ``len(<literal or module constant>)``."""
+    if isinstance(e, ast.Constant) and type(e.value) is int:
+        return e.value
+    if isinstance(e, ast.Call) and q.is_call(e, "len") and len(e.args) == 1:
+        return _const_len(e.args[0], fi)
+    if isinstance(e, ast.Name):
+        v = fi.module.assigns.get(e.id)
+        if isinstance(v, ast.Constant) and type(v.value) is int and e.id not in q.local_names(fi.node):
+            return v.value
     return None
 
 
@@ -251,7 +269,7 @@ def slice_delimiters(fi: FuncInfo, sub: ast.Subscript, facts) -> List[Tuple[bool
                 e = ast.parse(t, mode="eval").body
             except SyntaxError:
                 continue
-            if isinstance(e, ast.Call) and isinstance(e.func, ast.Attribute) and e.func.attr == method and q.unparse(e.func.value) in bases and len(e.args) == 1 and _const_len(e.args[0]) is not None:
+            if isinstance(e, ast.Call) and isinstance(e.func, ast.Attribute) and e.func.attr == method and q.unparse(e.func.value) in bases and len(e.args) == 1 and _const_len(e.args[0], fi) is not None:
                 res.append(e.args[0])
         return res
 
@@ -261,14 +279,12 @@ def slice_delimiters(fi: FuncInfo, sub: ast.Subscript, facts) -> List[Tuple[bool
         var = None
         if isinstance(lo, ast.BinOp) and isinstance(lo.op, ast.Add):
             a, b = lo.left, lo.right
-            if isinstance(b, ast.Name) and isinstance(a, ast.Constant):
+            if _int_of(a, fi) is not None and isinstance(b, ast.Name) and _int_of(b, fi) is None:
                 a, b = b, a
-            if isinstance(a, ast.Name) and isinstance(b, ast.Constant) and type(b.value) is int:
-                var, k = a.id, b.value
-            elif isinstance(a, ast.Name) and isinstance(b, ast.Call) and q.is_call(b, "len") and _const_len(b.args[0]) is not None:
-                var, k = a.id, _const_len(b.args[0])
-        elif isinstance(lo, ast.Constant) and type(lo.value) is int and lo.value >= 0:
-            k = lo.value
+            if isinstance(a, ast.Name) and _int_of(b, fi) is not None:
+                var, k = a.id, _int_of(b, fi)
+        elif _int_of(lo, fi) is not None and _int_of(lo, fi) >= 0:
+            k = _int_of(lo, fi)
         elif isinstance(lo, ast.Name):
             var, k = lo.id, 0
         if k is None:
@@ -279,19 +295,19 @@ def slice_delimiters(fi: FuncInfo, sub: ast.Subscript, facts) -> List[Tuple[bool
                 raise AnalysisError("x_exact: slice start %s is not bound from a find() of a literal delimiter" % var)
             first = fb.func.attr in ("find", "index")
             out.append((first, "the content starts after the FIRST occurrence of the delimiter (%s = %s)" % (var, q.unparse(fb))))
-            dl = _const_len(fb.args[0])
+            dl = _const_len(fb.args[0], fi)
             if dl is None:
                 raise AnalysisError("x_exact: delimiter of %s is not a literal" % q.unparse(fb))
             out.append((k == dl or k == 0, "the slice starts %d bytes after the delimiter position, the delimiter %s is %d bytes long" % (k, q.unparse(fb.args[0]), dl)))
             out.append((q.unparse(fb.func.value) == base, "the delimiter was searched in the sliced object itself"))
         else:
             lits = fact_call("startswith")
-            out.append((k == 0 or any(_const_len(l) == k for l in lits), "a constant start offset %d needs a dominating %s.startswith(<%d-byte literal>)" % (k, base, k)))
+            out.append((k == 0 or any(_const_len(l, fi) == k for l in lits), "a constant start offset %d needs a dominating %s.startswith(<%d-byte literal>)" % (k, base, k)))
     if hi is not None:
-        if isinstance(hi, ast.UnaryOp) and isinstance(hi.op, ast.USub) and isinstance(hi.operand, ast.Constant) and type(hi.operand.value) is int:
-            k = hi.operand.value
+        if isinstance(hi, ast.UnaryOp) and isinstance(hi.op, ast.USub) and _int_of(hi.operand, fi) is not None:
+            k = _int_of(hi.operand, fi)
             lits = fact_call("endswith")
-            out.append((any(_const_len(l) == k for l in lits), "dropping the last %d bytes needs a dominating %s.endswith(<%d-byte literal>) test (exactly the delimiter, nothing of the content)" % (k, base, k)))
+            out.append((any(_const_len(l, fi) == k for l in lits), "dropping the last %d bytes needs a dominating %s.endswith(<%d-byte literal>) test (exactly the delimiter, nothing of the content)" % (k, base, k)))
         elif isinstance(hi, ast.Name):
             fb = find_binding(hi.id)
             out.append((fb is not None and q.unparse(fb.func.value) == base, "the slice ends at a delimiter position found in the same object (%s)" % hi.id))
